@@ -160,3 +160,27 @@ Example ex_zombie_dir0_blank_refused :
   snd (step0 6000 5 7 st_z (MCU (mkCU 1 X 5003 1 0 40 1000 500000 10 1 0 1064 64))) =
     [(7, VErr EZombieKey, false)].
 Proof. vm_compute. reflexivity. Qed.
+
+(* ---- the second entry point ---- *)
+Definition st_a := fst (runE true [EMsg 6000 5 (MCA ca0); EMsg 6000 5 (MCU cu_d0)]).
+Definition cu_d0_newer := mkCU 7 X 5005 1 0 40 1000 500000 11 1 0 1065 65.   (* foreign chain hash: not checked here *)
+Definition cu_d0_older := mkCU 1 X 4999 1 0 40 1000 500000 12 1 0 1066 66.
+Definition cu_d0_forged := mkCU 1 X 5009 1 0 40 1000 500000 13 1 0 2067 67.  (* signed by node 2 *)
+Example ex_apply_newer_applied :
+  snd (apply_chan_upd ver0 6000 st_a cu_d0_newer) = true /\
+  alookup X (s_edges (fst (apply_chan_upd ver0 6000 st_a cu_d0_newer))) =
+    Some (mkEdge 1 2 3 4 1000 true (Some (pol_of cu_d0_newer)) None).
+Proof. vm_compute. split; reflexivity. Qed.
+Example ex_apply_older_and_forged_leave_graph :
+  apply_chan_upd ver0 6000 st_a cu_d0_older = (st_a, true) /\
+  apply_chan_upd ver0 6000 st_a cu_d0_forged = (st_a, false) /\
+  apply_chan_upd ver0 6000 (init 99) cu_d0 = (init 99, false).
+Proof. vm_compute. repeat split; reflexivity. Qed.
+
+(* three updates (timestamps 5, 9, 7) taking the mutex in two different orders *)
+Definition ts3 (k : nat) : N := match k with O => 5 | S O => 9 | _ => 7 end.
+Example ex_atomic_orders :
+  cw_store (cw_run ts3 (mkCw 1 [] []) (atomic_schedule [0; 1; 2]%nat)) = 9 /\
+  cw_store (cw_run ts3 (mkCw 1 [] []) (atomic_schedule [1; 2; 0]%nat)) = 9 /\
+  cw_log (cw_run ts3 (mkCw 1 [] []) (atomic_schedule [2; 0; 1]%nat)) = [(1, 7); (7, 9)].
+Proof. vm_compute. repeat split; reflexivity. Qed.
